@@ -13,6 +13,7 @@ pub mod c11;
 pub mod c12;
 pub mod c13;
 pub mod c14;
+pub mod c15;
 pub mod c23;
 pub mod c25;
 pub mod c27;
